@@ -204,4 +204,38 @@ def docConsistent (names : List String) (min : Nat) (max : Option Nat) : Bool :=
   | .error _ => false
   | .ok ll => (min, max) = arity ll || (min, max) = arityNoDup ll
 
+/-! ### histories: definitions, redefinitions and calls
+
+    The only state a call may depend on is the latest definition of the called name: no earlier
+    definition, no earlier call (of any function, with any keywords) may influence a binding. -/
+
+inductive Op where
+  | define (name : String) (ll : LL)
+  | call (name : String) (args : List Obj)
+  deriving Repr, DecidableEq
+
+inductive CallResult where
+  | undefined
+  | bound (r : Except BindErr (List (String × Obj)))
+  deriving Repr
+
+/-- the definitions in force, newest first -/
+abbrev Env := List (String × LL)
+
+def Env.find (env : Env) (name : String) : Option LL :=
+  match env with
+  | [] => none
+  | (n, ll) :: rest => if n = name then some ll else Env.find rest name
+
+def callResult (d : Option LL) (args : List Obj) : CallResult :=
+  match d with
+  | none => .undefined
+  | some ll => .bound (bind ll args)
+
+/-- run a history; one result per call, in order -/
+def runHist : Env → List Op → List CallResult
+  | _, [] => []
+  | env, .define n ll :: ops => runHist ((n, ll) :: env) ops
+  | env, .call n args :: ops => callResult (env.find n) args :: runHist env ops
+
 end SlipVerif.Lambda
